@@ -2,6 +2,7 @@
 import itertools
 import re
 import common as C
+import gen_str
 
 PROPERTIES = ["C06"]
 MANIFEST = {
@@ -598,6 +599,13 @@ ASSUMPTIONS = [
 ]
 
 
+def setup():
+    """tools/setup.py: regenerate lean/Nstd/Generated/StrTables.lean before the Lean build"""
+    ok, msg = gen_str.run()
+    if not ok:
+        print("gen_str:", msg)
+
+
 def limit_memory():
     # a runaway String (e.g. replace with an empty needle on an unrepaired tree) must end as a crash, not eat the machine
     if "hard_rss_limit_mb" not in C.SAN_ENV["ASAN_OPTIONS"]:
@@ -607,7 +615,7 @@ def limit_memory():
 def check(ctx):
     ctx.assumptions += ASSUMPTIONS
     limit_memory()
-    proof_ok = C.proof_stage(ctx, PROPS, [DRIVER], leanchecker=(ctx.tier == "thorough"))
+    proof_ok = C.proof_stage(ctx, PROPS, [DRIVER], gen=gen_str.gen, leanchecker=(ctx.tier == "thorough"))
     harness = C.build_harness(ctx, "str", SOURCES)
     if harness is None or not C.driver_path(DRIVER).exists():
         return
@@ -637,6 +645,7 @@ def replay(ctx, path):
     h = C.parse_replay(path)
     limit_memory()
     harness = C.build_harness(ctx, "str", SOURCES)
+    gen_str.run()
     C.lake_build([DRIVER])
     diffs = C.differential(ctx, harness, C.driver_path(DRIVER), [h], reference, C.wildcard_eq)
     for d in diffs:
